@@ -81,7 +81,9 @@ Record pool := mkPool {
   pl_its : option (list string);        (* cloudProvider.GetInstanceTypes: None = error *)
   pl_static : bool;                     (* Spec.Replicas != nil *)
   pl_after : option Z;                  (* Spec.Disruption.ConsolidateAfter.Duration *)
-  pl_policy : string }.
+  pl_policy : string;
+  pl_tgp : option Z }.                  (* Spec.Template.Spec.TerminationGracePeriod: part of the input, read by nothing in
+                                           candidate selection (only the NodeClaim's own TGP counts, see new_candidate) *)
 
 (* one entry of cluster.nodes *)
 Record snode := mkSNode {
